@@ -18,6 +18,7 @@ func init() {
 const diagPkg = "core/validators/diagnostics"
 
 func checkC10(c *Ctx, r *Report) {
+	defer func() { ruleRegexInventory(c, r, "C10.c", "core/validators", "definitions") }()
 	w := c.W
 	r.NotDecided = append(r.NotDecided, "completeness: that a route satisfying the rules is never rejected (needs the semantics of every predicate on every input)",
 		"the exact language of route templates ({name} extraction over all strings)")
